@@ -410,7 +410,7 @@ def main(tier, replay):
                 if "parameters" not in base:
                     continue
                 ms = list(mutations(base["parameters"]))
-                for _ in range(min(3000, len(ms) * 4)):
+                for _ in range(min(6000, len(ms) * 12)):
                     a = rng.pick(ms)
                     try:
                         second = list(mutations(a[2]))
@@ -419,6 +419,9 @@ def main(tier, replay):
                     if not second:
                         continue
                     b = rng.pick(second)
+                    if b[2] == base["parameters"]:
+                        # the second mutation undid the first: that is the canonical request again
+                        continue
                     work.append((k, "pair:%s+%s" % (a[0], b[0]), a[1] + b[1], dict(base, parameters=b[2]), "keep" if ("client_id",) in (a[1][:1], b[1][:1]) else "own"))
 
         lock = threading.Lock()
@@ -444,7 +447,7 @@ def main(tier, replay):
         concurrent(ctx, srv, 8 if tier == "quick" else 200)
         if srv.p.poll() is not None:
             ctx.violation("c19:server-died", {"status": srv.p.returncode})
-        return ctx.finish(500 if tier == "quick" else 5000)
+        return ctx.finish(500 if tier == "quick" else 4000)
     finally:
         srv.stop()
 
